@@ -42,7 +42,7 @@ def _fmt_status(st, recv, args, kw):
 _GENERIC_FORMAT = calls.METHOD_MODELS[('str', 'format')]
 calls.METHOD_MODELS[('str', 'format')] = _fmt_status
 
-contract('HttpRelayClient._process_response', module=M, props=['C11', 'C19'],
+contract('HttpRelayClient._process_response', module=M, props=['C11', 'C19', 'C06'],
          params={'self': 'HttpRelayClient', 'http_res': 'HTTPResponse', 'result': 'AsyncResult'},
          requires=['http_res != None', 'result != None', 'AR_ok(result)', 'http_res.status >= 100 and http_res.status < 600'],
          ensures=['AR_ok(result)', 'result.n_answers == old(result.n_answers) + 1', 'result.answered',
@@ -90,3 +90,77 @@ contract('HttpRelayClient._run', module=M, props=['C11', 'C19'], yields=True,
          modifies=['self.cur', 'self.idle', 'self.conn', 'any(AsyncResult).answered', 'any(AsyncResult).n_answers',
                    'any(AsyncResult).is_exc', 'any(AsyncResult).value', 'fresh'],
          loops={0: dict(inv=['self.relay != None', HDONE])})
+
+# ---------------------------------------------------------------------------- C06 fragment: HTTP envelope addressing
+# Client: one header per recipient, in recipient order, each the base64 form of THAT recipient; sender likewise.
+# Edge: every piece of the (comma-joined) recipient header is decoded, in order.  base64 / utf-8 are opaque functions
+# with dec(enc(x)) == x assumed; the joining of repeated headers by the HTTP/WSGI layer is outside the code.
+MW = 'slimta/edge/wsgi.py'
+_B64E = z3.Function('py_b64e', z3.StringSort(), z3.StringSort())
+_B64D = z3.Function('py_b64d', z3.StringSort(), z3.StringSort())
+
+
+def _b64e(st, args):
+    s = st.coerce(args[0], T.STR).z
+    st.assume(_B64D(_B64E(s)) == s)
+    return Val(T.STR, _B64E(s))
+
+
+def _b64d(st, args):
+    return Val(T.STR, _B64D(st.coerce(args[0], T.STR).z))
+
+
+calls.SPECFUNS['b64e'] = _b64e
+calls.SPECFUNS['b64d'] = _b64d
+klass('HttpRelay', fields={'ehlo_header': 'Str', 'sender_header': 'Str', 'recipient_header': 'Str'})
+klass('HttpRelayClient', fields={'ehlo_as': 'Str'})
+extern('HttpRelayClient._b64encode', params={'self': 'HttpRelayClient', 'what': 'Str'}, returns='Str', pure=True,
+       ensures=['result == b64e(what)'],
+       notes='HttpRelayClient._b64encode = b64encode(what.encode("utf-8")).decode("ascii"): opaque, invertible (assumed)')
+
+contract('HttpRelayClient._build_headers', module=M, props=['C06'],
+         params={'self': 'HttpRelayClient', 'envelope': 'Envelope', 'msg_headers': 'Bytes', 'msg_body': 'Bytes'},
+         returns='List[Tuple[Str, Str]]',
+         requires=['self.relay != None', 'envelope != None', 'envelope.recipients != None', 'envelope.sender is not None'],
+         ensures=['result != None', 'len(result) == 4 + len(envelope.recipients)',
+                  # the sender header, then exactly one header per recipient, in recipient order
+                  'result[3][0] == self.relay.sender_header and result[3][1] == b64e(cast(envelope.sender, Str))',
+                  'forall(range(0, len(envelope.recipients)), lambda i: result[4 + i][0] == self.relay.recipient_header '
+                  '       and result[4 + i][1] == b64e(envelope.recipients[i]))'],
+         modifies=['fresh'], locals={'headers': 'List[Tuple[Str, Str]]'},
+         loops={0: dict(modifies=['contents(headers)', 'new'],
+                        inv=['headers != None and fresh(headers) and is_list(headers) and len(headers) == 4 + _k',
+                             'headers[3][0] == self.relay.sender_header and headers[3][1] == b64e(cast(envelope.sender, Str))',
+                             'forall(range(0, _k), lambda i: headers[4 + i][0] == self.relay.recipient_header '
+                             '       and headers[4 + i][1] == b64e(envelope.recipients[i]))'])})
+
+klass('SplitPattern')
+klass('WsgiEdge', fields={'split_pattern': 'SplitPattern', 'sender_header': 'Str', 'rcpt_header': 'Str'})
+extern('_header_name_to_cgi', params={'name': 'Str'}, returns='Str', pure=True)
+extern('SplitPattern.split', params={'self': 'SplitPattern', 's': 'Str'}, returns='List[Str]',
+       ensures=['result != None', 'fresh(result)', 'is_list(result)', 'len(result) >= 1'],
+       notes="re.compile(r'\\\\s*[,;]\\\\s*').split(s): the pieces between separators (opaque)")
+extern('WsgiEdge._b64decode', params={'self': 'WsgiEdge', 'b64str': 'Str'}, returns='Str', pure=True,
+       ensures=['result == b64d(b64str)'],
+       notes='WsgiEdge._b64decode = b64decode(s.encode("ascii")).decode("utf-8"): opaque inverse of the client encoding')
+T.alias('Environ', 'Dict[Str, Str]')
+
+contract('WsgiEdge._get_recipients', module=MW, props=['C06'],
+         params={'self': 'WsgiEdge', 'environ': 'Environ'}, returns='List[Str]',
+         requires=['environ != None', 'self.split_pattern != None'],
+         ensures=['result != None'],
+         ghost_entry=['_gsplit = False', '_gparts = [""][0:0]'],
+         ghost_after={'rcpts_split = self.split_pattern.split(rcpts_raw)': ['_gsplit = True', '_gparts = rcpts_split']},
+         checks=[
+             # no recipient header: no recipients; otherwise every piece of the header is decoded, in order
+             'implies(not _gsplit, len(result) == 0)',
+             'implies(_gsplit, len(result) == len(_gparts) '
+             '   and forall(range(0, len(result)), lambda i: result[i] == self._b64decode(_gparts[i])))'],
+         modifies=['fresh'])
+
+contract('WsgiEdge._get_sender', module=MW, props=['C06'],
+         params={'self': 'WsgiEdge', 'environ': 'Environ'}, returns='Str',
+         requires=['environ != None'],
+         ensures=['result == b64d(ite(dict_has(environ, _header_name_to_cgi(self.sender_header)), '
+                  '                  dict_get(environ, _header_name_to_cgi(self.sender_header)), ""))'],
+         modifies=['fresh'])
